@@ -80,6 +80,8 @@ def mt(e, sigs):
         return sigs[e[1]]["w"], sigs[e[1]]["s"]
     if k == "c":
         return max(bits_for(e[1]), 1), e[1] < 0
+    if k == "rst":
+        return 1, False
     if k == "u":
         t = mt(e[2], sigs)
         if e[1] == "-" and not t[1]:
@@ -133,6 +135,7 @@ class G:
         self.cat_targets = True
         self.arr_targets = True
         self.slcat_targets = False
+        self.rst_domains = []
         self.wild = bool(wild)
 
     def const(self, hint=None, neg_ok=False):
@@ -152,6 +155,8 @@ class G:
             if cands:
                 return ["s", r.choice(cands)]
             return None
+        if self.rst_domains and r.random() < 0.25:
+            return ["rst", r.choice(self.rst_domains)]          # ResetSignal(domain) read as data
         return self.const(neg_ok=not want_unsigned)
 
     def E(self, readable, depth, want_unsigned=False, maxw=None):
@@ -311,7 +316,7 @@ class G:
     def is_exact(self, e):
         """conservative syntactic test: e is in the E class."""
         k = e[0]
-        if k in ("s",):
+        if k in ("s", "rst"):
             return True
         if k == "c":
             return True
@@ -479,7 +484,9 @@ def gen_frag(r, tier, exh=False, wild=False):
         if s:
             rv = rv - (1 << w) if rv >> (w - 1) else rv
         sigs.append({"name": "c%d" % i, "w": w, "s": s, "kind": "comb", "reset": rv, "io": r.random() < 0.6})
+    reset_less_domains = [d for d in domains if r.random() < 0.2]
     g = G(r, sigs, wild=wild)
+    g.rst_domains = [d for d in domains if d not in reset_less_domains]
     regular_comb = r.random() < 0.8
     # regular_comb=False (the Verilator path) emits one always block per target and repeats a Cat(..) assignment in the block
     # of every signal it touches: listed finding C01-F5, so Cat targets are generated in comb only with regular_comb=True
@@ -509,7 +516,7 @@ def gen_frag(r, tier, exh=False, wild=False):
     # registers never assigned and comb signals never assigned are fine (keep reset)
     ins = [i for i, s in enumerate(sigs) if s["kind"] == "in"]
     scn = {"family": "exh" if exh else "wild" if wild else "frag", "signals": sigs, "comb": comb, "sync": sync, "domains": domains,
-           "reset_less_domains": [d for d in domains if r.random() < 0.2],
+           "reset_less_domains": reset_less_domains,
            "regular_comb": regular_comb, "proc_seed": r.getrandbits(32)}
     if exh:
         scn["stim"] = "all"
@@ -609,7 +616,7 @@ def gen_corpus(r, tier):
 # building migen designs from scenarios
 # ------------------------------------------------------------------------------------------------
 def build_frag(scn):
-    from migen import Module, Signal, ClockDomain, If, Case, Cat, Replicate, Mux, Array, Constant
+    from migen import Module, Signal, ClockDomain, If, Case, Cat, Replicate, Mux, Array, Constant, ResetSignal
     sigs = []
     driven = set()
     for stl in [scn["comb"]] + list(scn["sync"].values()):
@@ -629,6 +636,8 @@ def build_frag(scn):
             return sigs[e[1]]
         if k == "c":
             return Constant(e[1])
+        if k == "rst":
+            return ResetSignal(e[1])
         if k == "u":
             a = ex(e[2])
             return ~a if e[1] == "~" else -a
